@@ -85,15 +85,24 @@ Magnitude(b) ==
         den == IF up THEN NFromInt(m[2]) ELSE NMul(NFromInt(m[2]), te)
     IN c' = Case("magnitude", neg, num, den, b, e + m[1] + b)
 
+\* The large powers are computed in intermediate states (a^k in "bigA", then c^j in "bigAC"), so that each is
+\* evaluated once and not once per case; only the final cases are printed.
+BigAs == {2, 7, 10}
+BigCs == {3, 10}
+BigJs == {0, 50, 400}
+
+BigA == /\ c.f = "init"
+        /\ \E a \in BigAs, k \in BigKs : c' = [f |-> "bigA", a |-> a, k |-> k, ak |-> NPow(<<a>>, k)]
+BigAC == /\ c.f = "bigA"
+         /\ \E cc \in BigCs, j \in BigJs :
+              c' = [f |-> "bigAC", a |-> c.a, k |-> c.k, ak |-> c.ak, cc |-> cc, j |-> j, cj |-> NPow(<<cc>>, j)]
 Big(b) ==
-  \E a \in {2, 7, 10}, k \in BigKs, cc \in {3, 10}, j \in {0, 50, 400}, s \in {-1, 1}, t \in {-1, 1} :
-    LET h == a * 11 + k * 3 + cc + j * 5 + s + 2 * t + b IN
+  \E s \in {-1, 1}, t \in {-1, 1} :
+    LET h == c.a * 11 + c.k * 3 + c.cc + c.j * 5 + s + 2 * t + b IN
     /\ (h + Seed) % StrideBig = 0
-    /\ ~(j = 0 /\ t = -1)                                   \* c^0 - 1 = 0
-    /\ LET ak == NPow(<<a>>, k)
-           cj == NPow(<<cc>>, j)
-           num == IF s = 1 THEN NAddSmall(ak, 1) ELSE NSub(ak, <<1>>)
-           den == IF t = 1 THEN NAddSmall(cj, 1) ELSE NSub(cj, <<1>>)
+    /\ ~(c.j = 0 /\ t = -1)                                 \* c^0 - 1 = 0
+    /\ LET num == IF s = 1 THEN NAddSmall(c.ak, 1) ELSE NSub(c.ak, <<1>>)
+           den == IF t = 1 THEN NAddSmall(c.cj, 1) ELSE NSub(c.cj, <<1>>)
        IN \E neg \in NegFor(h) : c' = Case("big", neg, num, den, b, h)
 
 \* one action per family (the coverage gate of the engine wants each of them taken)
@@ -101,9 +110,9 @@ GenSmall == c.f = "init" /\ \E b \in Bases : Small(b)
 GenBoundary == c.f = "init" /\ \E b \in Bases : Boundary(b)
 GenPeriod == c.f = "init" /\ \E b \in Bases : Period(b)
 GenMagnitude == c.f = "init" /\ \E b \in Bases : Magnitude(b)
-GenBig == c.f = "init" /\ \E b \in Bases : Big(b)
-Next == GenSmall \/ GenBoundary \/ GenPeriod \/ GenMagnitude \/ GenBig
+GenBig == c.f = "bigAC" /\ \E b \in Bases : Big(b)
+Next == GenSmall \/ GenBoundary \/ GenPeriod \/ GenMagnitude \/ BigA \/ BigAC \/ GenBig
 Spec == Init /\ [][Next]_c
 
-Emit == c.f # "init" => PrintT(<<"CASE", ToJson(c)>>)
+Emit == c.f \notin {"init", "bigA", "bigAC"} => PrintT(<<"CASE", ToJson(c)>>)
 =============================================================================
